@@ -1,5 +1,5 @@
 #!/usr/bin/env python3
-"""usage: mk_agent_prompt.py <prop id> <wave>  -> prints the prompt for a seeding sub-agent; creates the worktree /tmp/wt-<id>-<wave> and /tmp/seed-<id>-<wave>"""
+"""usage: mk_agent_prompt.py <prop id> <wave> [package hint]  -> prints the prompt for a seeding sub-agent; creates the worktree /tmp/wt-<id>-<wave> and /tmp/seed-<id>-<wave>"""
 import json, os, subprocess, sys, glob
 pid, wave = sys.argv[1], sys.argv[2]
 V = os.path.dirname(os.path.dirname(os.path.abspath(__file__)))
@@ -15,4 +15,6 @@ for m in sorted(glob.glob(os.path.join(V, "seeded", pid + "-*", "meta.json"))):
 p = tpl.replace("{WT}", wt).replace("{OUT}", out).replace("{PROP}", prop).replace("{ID}", pid)
 if avoid:
     p += "\n\nOther people have already proposed the following change(s) for this property; propose something that breaks the property through a DIFFERENT mechanism / code site / circumstance:\n" + "\n".join(avoid)
+if len(sys.argv) > 3:
+    p += "\n\nFor this round, place the change in (or reach it through) the package `%s` of the repository, if the property can be broken there." % sys.argv[3]
 print(p)
